@@ -279,7 +279,7 @@ def check (c):
             common.guarded (lambda: m.compute_near_field (list (x), [1.0, 1.0, 1.0], [1, 1, 1]), 'compute_near_field')
             Ec, Hc = np.asarray (m.e_field [0]), np.asarray (m.h_field [0])
             E2, H2 = nfref.fields (m, x, 8)
-            judge ('E.f2', np.linalg.norm (Ec - E2) / np.linalg.norm (E2), 0.01, 'E at %s after the frequency of the object was changed from %.6g to %.6g MHz deviates from the field of the solved currents' % (np.round (x, 4), f0, m.f), key = 'near-E-after-frequency-change')
+            judge ('E.f2', np.linalg.norm (Ec - E2) / np.linalg.norm (E2), 0.01, 'E at %s after the frequency of the object was changed from %.6g to %.6g MHz deviates from the field of the solved currents' % (np.round (x, 4), f0, m.f), key = FD_KEY if e_key (m, x, Ec, E2) == FD_KEY else 'near-E-after-frequency-change')
             judge ('H.f2', np.linalg.norm (Hc - H2) / np.linalg.norm (H2), 0.01, 'H at %s after the frequency of the object was changed from %.6g to %.6g MHz deviates from the field of the solved currents' % (np.round (x, 4), f0, m.f), key = FD_KEY if h_key (m, x, Hc, H2) == FD_KEY else 'near-H-after-frequency-change')
         m.f = f0
     if not any (k.startswith ('E.') for k in mon):
